@@ -200,7 +200,7 @@ def check(chk: Check) -> None:
     chk.rule("C05.TABLE.disabled", "size 0: prefix reference is 0 and decodes to ''; insert refuses", floor=2)
     chk.rule("C05.PATH.lru", "a hit refreshes the key; eviction never removes the most recently used entry", floor=2)
     chk.exhaustive = True
-    sizes = (1, 2, 3, 4) if chk.tier == "quick" else (1, 2, 3, 4, 5, 6)
+    sizes = (1, 2, 3, 4, 5) if chk.tier == "quick" else (1, 2, 3, 4, 5, 6)
     chk.trusted += ["OrderedDict / deque models (jstat.models.TRUSTED_FACTS)", "key-renaming symmetry: keys are only compared for equality and emptiness (property text: alphabets of size+2 suffice)"]
     chk.undecided += ["table sizes above the enumerated bound (the rules only compare indices, so larger sizes add no new ordering patterns)", "statement-level in-use eviction (C18)"]
     from ..par import pmap
